@@ -170,7 +170,9 @@ pub fn run_mc(world: &WorldRef, btor2: &str, cfg: &McCfg) -> McRun {
 }
 
 /// C03's oracle: replays a witness in the reference semantics.
-pub fn check_witness(sys: &Sys, wit: &WitnessData) -> Result<(), String> {
+/// `names`: the state and input names of the system as patronus holds it (the btor2 reader may
+/// rename a state after a label that aliases it).
+pub fn check_witness(sys: &Sys, names: &ParsedInfo, wit: &WitnessData) -> Result<(), String> {
     let ns = sys.states.len();
     let ni = sys.inputs.len();
     if wit.init.len() != ns || wit.init_names.len() != ns {
@@ -181,11 +183,20 @@ pub fn check_witness(sys: &Sys, wit: &WitnessData) -> Result<(), String> {
             ns
         ));
     }
-    for (i, st) in sys.states.iter().enumerate() {
-        if wit.init_names[i].as_deref() != Some(st.name.as_str()) {
+    if names.state_names.len() != ns || names.input_names.len() != ni {
+        return Err(format!(
+            "HARNESS: parsed system has {} states / {} inputs, abstract system {} / {}",
+            names.state_names.len(),
+            names.input_names.len(),
+            ns,
+            ni
+        ));
+    }
+    for i in 0..ns {
+        if wit.init_names[i].as_deref() != Some(names.state_names[i].as_str()) {
             return Err(format!(
                 "state #{i} is named {:?} in the witness but `{}` in the system",
-                wit.init_names[i], st.name
+                wit.init_names[i], names.state_names[i]
             ));
         }
     }
@@ -196,11 +207,11 @@ pub fn check_witness(sys: &Sys, wit: &WitnessData) -> Result<(), String> {
             ni
         ));
     }
-    for (i, inp) in sys.inputs.iter().enumerate() {
-        if wit.input_names[i].as_deref() != Some(inp.0.as_str()) {
+    for i in 0..ni {
+        if wit.input_names[i].as_deref() != Some(names.input_names[i].as_str()) {
             return Err(format!(
                 "input #{i} is named {:?} in the witness but `{}` in the system",
-                wit.input_names[i], inp.0
+                wit.input_names[i], names.input_names[i]
             ));
         }
     }
@@ -301,4 +312,117 @@ pub fn check_witness(sys: &Sys, wit: &WitnessData) -> Result<(), String> {
         }
     }
     Ok(())
+}
+
+// -------------------------------------------------------------------------------------------------
+// direct driver of the public unrolling API (C04)
+// -------------------------------------------------------------------------------------------------
+
+#[derive(Clone, Debug, PartialEq, Eq)]
+pub enum SigKind {
+    State,
+    Input,
+    Constraint,
+    Bad,
+}
+
+#[derive(Clone, Debug)]
+pub enum SigSym {
+    /// name of the SMT symbol that stands for the signal in that step
+    Symbol(String),
+    /// the encoding returned a Boolean literal
+    Literal(bool),
+    /// something else (unexpected)
+    Other(String),
+}
+
+#[derive(Clone, Debug)]
+pub struct SignalAt {
+    pub kind: SigKind,
+    pub index: usize,
+    pub step: u64,
+    pub sym: SigSym,
+}
+
+#[derive(Clone, Debug, Default)]
+pub struct EncodingInfo {
+    pub signals: Vec<SignalAt>,
+    pub parsed: ParsedInfo,
+}
+
+/// parse -> [simplify] -> start solver -> set-logic -> UnrollSmtEncoding::new / define_header /
+/// init_at(entry) / unroll x n, then asks `get_signal_at` for every state, input, constraint and
+/// bad state at every step.
+pub fn run_encoding(
+    world: &WorldRef,
+    btor2: &str,
+    profile: usize,
+    simplify: bool,
+    entry: u64,
+    unrolls: u64,
+) -> Outcome<EncodingInfo> {
+    use patronus::mc::{TransitionSystemEncoding, UnrollSmtEncoding};
+    use patronus::smt::{Logic, SolverContext};
+    guarded_with_world(world, || {
+        let mut ctx = Context::default();
+        let mut sys = patronus::btor2::parse_str(&mut ctx, btor2, Some("gen"))
+            .ok_or_else(|| "HARNESS: btor2 reader rejected a generated system".to_string())?;
+        if simplify {
+            patronus::system::transform::simplify_expressions(&mut ctx, &mut sys);
+        }
+        let solver = solver_const(profile);
+        let mut smt_ctx = solver.start(None).map_err(|e| format!("start: {e}"))?;
+        // same choice of logic as `mc::bmc` / `mc::pdr`
+        let logic = if smt_ctx.name() == "z3" {
+            Logic::All
+        } else if smt_ctx.supports_uf() {
+            Logic::QfAufbv
+        } else {
+            Logic::QfAbv
+        };
+        smt_ctx.set_logic(logic).map_err(|e| format!("{e} [{e:?}]"))?;
+        let mut enc = UnrollSmtEncoding::new(&mut ctx, &sys, false);
+        enc.define_header(&mut smt_ctx).map_err(|e| format!("{e} [{e:?}]"))?;
+        enc.init_at(&mut ctx, &mut smt_ctx, entry)
+            .map_err(|e| format!("{e} [{e:?}]"))?;
+        for _ in 0..unrolls {
+            enc.unroll(&mut ctx, &mut smt_ctx)
+                .map_err(|e| format!("{e} [{e:?}]"))?;
+        }
+        let mut info = EncodingInfo {
+            signals: vec![],
+            parsed: parsed_info(&ctx, &sys),
+        };
+        let describe = |ctx: &Context, e: patronus::expr::ExprRef| -> SigSym {
+            if let Some(name) = ctx.get_symbol_name(e) {
+                SigSym::Symbol(name.to_string())
+            } else if ctx[e].is_true() {
+                SigSym::Literal(true)
+            } else if ctx[e].is_false() {
+                SigSym::Literal(false)
+            } else {
+                use patronus::expr::SerializableIrNode;
+                SigSym::Other(e.serialize_to_str(ctx))
+            }
+        };
+        for step in entry..=(entry + unrolls) {
+            for (i, st) in sys.states.iter().enumerate() {
+                let e = enc.get_signal_at(&ctx, st.symbol, step);
+                info.signals.push(SignalAt { kind: SigKind::State, index: i, step, sym: describe(&ctx, e) });
+            }
+            for (i, inp) in sys.inputs.iter().enumerate() {
+                let e = enc.get_signal_at(&ctx, *inp, step);
+                info.signals.push(SignalAt { kind: SigKind::Input, index: i, step, sym: describe(&ctx, e) });
+            }
+            for (i, c) in sys.constraints.iter().enumerate() {
+                let e = enc.get_signal_at(&ctx, *c, step);
+                info.signals.push(SignalAt { kind: SigKind::Constraint, index: i, step, sym: describe(&ctx, e) });
+            }
+            for (i, b) in sys.bad_states.iter().enumerate() {
+                let e = enc.get_signal_at(&ctx, *b, step);
+                info.signals.push(SignalAt { kind: SigKind::Bad, index: i, step, sym: describe(&ctx, e) });
+            }
+        }
+        Ok(info)
+    })
 }
